@@ -998,6 +998,15 @@ func SliceBack(v ssa.Value, visit func(ssa.Value) bool) {
 				if st, ok := r.(*ssa.Store); ok && st.Addr == ssa.Value(x) {
 					rec(st.Val, d+1)
 				}
+				// element / field stores (array literals behind variadic calls, struct literals)
+				switch a := r.(type) {
+				case *ssa.IndexAddr, *ssa.FieldAddr:
+					for _, u := range Refs(a.(ssa.Value)) {
+						if st, ok := u.(*ssa.Store); ok && st.Addr == a.(ssa.Value) {
+							rec(st.Val, d+1)
+						}
+					}
+				}
 			}
 		}
 	}
